@@ -48,6 +48,8 @@ def run(ctx):
             "K:tagcj": " , b.tag FROM allowed.cpu a , ", "K:b": " b ",
             "K:with": " WITH", "K:cte": "cpu AS ( SELECT 1 AS one ) SELECT tag FROM cpu ",
             "K:tagwhere": " , tag FROM allowed.cpu WHERE tag <> ", "K:inj": " , tag FROM ", "K:cmt": " -- ",
+            "K:cjdb": " s.tag FROM allowed.cpu c ,", "K:fsec": "foreign.cpu s ", "K:cjstar": " * FROM allowed.cpu ,",
+            "K:fstar": "foreign.cpu ", "K:tagcpu": " tag FROM cpu",
             "K:trim": " trim( ", "K:as": " AS ", "K:btag": " b.tag FROM allowed.cpu a", "K:join": "JOIN",
             "K:fcpu": "foreign.cpu b ON true ", "K:subq": " ( SELECT max(tag) FROM", "K:subend": "foreign.cpu ) AS t FROM allowed.cpu ",
             "F:foreign": root + "/foreign/cpu/2024/01/01/00/f.parquet"}
